@@ -119,7 +119,12 @@ class _Builder:
             kind = self.draw(st.sampled_from(["bridge", "bubble", "bubble", "bubble"])) if allow_bridge else "bubble"
             if kind == "bridge":
                 nxt = self.add_ref(chrom)
-                self.link(prev, "+", nxt, "+")
+                if getattr(self, "ref_gaps", False) and self.draw(st.integers(0, 3)) == 0:
+                    # the reference contig continues but nothing links the two segments (an assembly gap: the contig is
+                    # fully tiled by segments, yet it is not one linked path and spans two connected components)
+                    chrom["features"].append("unlinked_reference_gap")
+                else:
+                    self.link(prev, "+", nxt, "+")
                 prev = nxt
                 continue
             chrom["bubbles"] += 1
@@ -214,13 +219,14 @@ class _Builder:
 
 @st.composite
 def rgfa(draw, min_chroms=1, max_chroms=2, max_elements=5, max_ln=9, min_elements=1, allow_bridge=True,
-         max_ears=3, cycles=False):
+         max_ears=3, cycles=False, ref_gaps=False):
     rnd = random.Random(draw(st.integers(0, 2**30)))
     start = draw(st.sampled_from([0, 0, 6, 95, 996]))
     # segment names are arbitrary non-blank strings: also ids with '.', '-' and '#'
     b = _Builder(draw, rnd, [draw(st.sampled_from(["s", "s", "s", ""])),  # "" = purely numeric ids, as vg / odgi / pggb write them
                              draw(st.sampled_from(["utg", "n", "s0", "s1.", "ctg-", "n#", "b", "s,", "u=", "t;"]))], start, max_ln)
     b.cycles = cycles
+    b.ref_gaps = ref_gaps and draw(st.integers(0, 3)) == 0
     nchrom = draw(st.integers(min_chroms, max_chroms))
     names = draw(st.permutations(["chr1", "chr2", "chrX", "chr10_alt", "chr1.mat", "chr1.pat", "complete"]))[:nchrom]
     for name in names:
